@@ -425,6 +425,16 @@ def gen_c08(R, tier, rejecting=False):
     impl = b.impl
     single = not impl.multi
     late_reads = R.random() < 0.3  # empties is first read only in the second half of the history
+    # 4% of the histories leave the property's quantifier (place_agent of an agent that is already placed): they
+    # only tie the model's branches for that case to the code; the property oracle does not apply to them
+    oq = (not rejecting) and R.random() < 0.04
+    if rejecting:
+        for a in range(nag):
+            e = impl.empty_cells()
+            if R.random() < 0.8 and (impl.multi or e):
+                x, y = (R.randrange(w), R.randrange(h)) if impl.multi else R.choice(e)
+                b.add(f"place {a} {x} {y}")
+        b.add("dump")
     n_ops = R.randint(5, 40 if tier == "quick" else 60)
     for step in range(n_ops):
         placed = [i for i, a in enumerate(impl.agents) if a.pos is not None]
@@ -432,40 +442,76 @@ def gen_c08(R, tier, rejecting=False):
         k = R.random()
         mut = True
         if rejecting and k < 0.5:
-            # a call that is (likely to be) rejected
-            j = R.random()
-            occupied = [c for content, c in impl.grid.coord_iter() if content]
-            if j < 0.2 and placed and not torus:
+            # a call that is (likely to be) rejected, chosen among the kinds applicable in this state
+            pos_of = {i: impl.agents[i].pos for i in placed}
+            kinds = ["swap-unplaced", "mto-bad"]
+            if placed and not torus:
+                kinds += ["move-oob", "mto-oob"]
+            if single and len(placed) >= 2:
+                kinds += ["move-occupied", "move-occupied", "mto-occupied"]
+            if single and placed and unplaced:
+                kinds += ["place-occupied"]
+            if placed and not impl.empty_cells():
+                kinds += ["mte-full", "mte-full"]
+            if placed:
+                kinds += ["mte-script", "mto-script"]
+            if unplaced and impl.multi:
+                kinds += ["remove-unplaced", "move-unplaced", "mte-unplaced"]
+            kind_ = R.choice(kinds)
+            far = lambda: R.choice([(-1, 0), (w, 0), (0, -1), (0, h), (w + 3, h + 3), (-5, 2), (R.randrange(w), h), (w, R.randrange(h))])  # noqa: E731
+            if kind_ == "move-oob":
+                x, y = far()
+                b.add(f"move {R.choice(placed)} {x} {y}")
+            elif kind_ in ("move-occupied", "mto-occupied"):
                 a = R.choice(placed)
-                x, y = R.choice([(-1, 0), (w, 0), (0, -1), (0, h), (w + 3, h + 3), (-5, 2)])
-                b.add(f"move {a} {x} {y}")
-            elif j < 0.45 and placed and occupied:
-                a = R.choice(placed)
-                x, y = R.choice(occupied)
+                x, y = pos_of[R.choice([i for i in placed if i != a])]
                 if torus and R.random() < 0.5:
                     x, y = x + w * R.choice([-1, 1, 2]), y - h * R.choice([0, 1])
-                b.add(f"move {a} {x} {y}")
-            elif j < 0.6 and unplaced and occupied:
-                x, y = R.choice(occupied)
+                if kind_ == "move-occupied":
+                    b.add(f"move {a} {x} {y}")
+                else:
+                    sel = R.choice(["random", "closest"])
+                    b.add(f"mto {a} {sel} none 1 {x} {y} : {R.randrange(1000)}")
+            elif kind_ == "place-occupied":
+                x, y = pos_of[R.choice(placed)]
                 b.add(f"place {R.choice(unplaced)} {x} {y}")
-            elif j < 0.7:
-                a, c = R.randrange(nag), R.randrange(nag)
-                if unplaced and R.random() < 0.8:
-                    a = R.choice(unplaced)
-                b.add(f"swap {a} {c}")
-            elif j < 0.8 and placed:
-                b.add(f"mte {R.choice(placed)} : " + " ".join(map(str, mte_script(R, impl)[: R.randrange(2)])))
-            elif j < 0.9 and unplaced:
-                b.add(f"remove {R.choice(unplaced)}")
-            else:
+            elif kind_ == "swap-unplaced":
+                a = R.choice(unplaced) if unplaced else nag  # nag: not an agent -> never generated (see below)
+                c = R.randrange(nag)
+                if a == nag:
+                    b.add(f"mto {c} bogus none 1 0 0 : 1")
+                else:
+                    b.add(f"swap {a} {c}" if R.random() < 0.5 else f"swap {c} {a}")
+            elif kind_ == "mto-bad":
                 a = R.randrange(nag)
-                ps = [R.choice(occupied)] if occupied and R.random() < 0.6 else [any_coord(R, w, h) for _ in range(R.randrange(3))]
-                sel = R.choice(["random", "closest", "bogus"])
-                he = R.choice(["error", "error", "none"]) if not ps else "none"
-                sc = [R.randrange(1000) for _ in range(R.choice([0, len(ps), len(ps) + 1]))]
-                b.add(f"mto {a} {sel} {he} {len(ps)} " + " ".join(f"{x} {y}" for x, y in ps) + " : " + " ".join(map(str, sc)))
-        elif k < 0.22 and unplaced:
-            a = R.choice(unplaced)
+                if R.random() < 0.5:
+                    b.add(f"mto {a} closest error 0 : 1 2")
+                else:
+                    ps = [any_coord(R, w, h) for _ in range(R.randint(1, 3))]
+                    b.add(f"mto {a} bogus {R.choice(['none', 'error'])} {len(ps)} " + " ".join(f"{x} {y}" for x, y in ps) + " : 1 2 3")
+            elif kind_ == "mto-oob":
+                a = R.choice(placed)
+                ps = [far() for _ in range(R.randint(1, 2))]
+                sel = R.choice(["random", "closest"])
+                sc = [R.randrange(1000) for _ in range(len(ps) + 1)]
+                b.add(f"mto {a} {sel} none {len(ps)} " + " ".join(f"{x} {y}" for x, y in ps) + " : " + " ".join(map(str, sc)))
+            elif kind_ == "mte-full":
+                b.add(f"mte {R.choice(placed)} : {R.randrange(1000)}")
+            elif kind_ == "mte-script":
+                b.add(f"mte {R.choice(placed)} :")
+            elif kind_ == "mto-script":
+                ps = [any_coord(R, w, h) for _ in range(R.randint(2, 4))]
+                sel = R.choice(["random", "closest"])
+                b.add(f"mto {R.choice(placed)} {sel} none {len(ps)} " + " ".join(f"{x} {y}" for x, y in ps) + " :" + (" 7" if sel == "closest" else ""))
+            elif kind_ == "remove-unplaced":
+                b.add(f"remove {R.choice(unplaced)}")
+            elif kind_ == "move-unplaced":
+                x, y = R.randrange(w), R.randrange(h)
+                b.add(f"move {R.choice(unplaced)} {x} {y}")
+            elif kind_ == "mte-unplaced":
+                b.add(f"mte {R.choice(unplaced)} : " + " ".join(map(str, mte_script(R, impl))))
+        elif k < 0.22 and (unplaced or (oq and placed)):
+            a = R.choice(placed) if (oq and placed and (not unplaced or R.random() < 0.6)) else R.choice(unplaced)
             x, y = R.randrange(w), R.randrange(h)
             b.add(f"place {a} {x} {y}")
         elif k < 0.30 and (placed or unplaced):
@@ -517,7 +563,7 @@ def gen_c08(R, tier, rejecting=False):
                 b.add(f"get {x} {y}")
         if mut:
             b.add("dump")
-    return b.scenario()
+    return b.scenario({"oq": True} if oq else None)
 
 
 RADII = [1, 1, 1, 2, 2, 3, 4, 7]
@@ -681,7 +727,7 @@ def check_views(H, s, bad, where):
 
 def oracle_c08(sc, obs):
     H = _hdr(sc)
-    if H["type"] != "grid":
+    if H["type"] != "grid" or sc.meta.get("oq"):
         return []
     tr = sc.meta.get("trace") or []
     bad = []
